@@ -297,3 +297,86 @@ Proof.
   - unfold rsum, fsum. cbn [map fst snd fold_left]. lra.
 Qed.
 Print Assumptions C12_gibbs_hyps_sat.
+
+(* ================================================================== *)
+(* D. transport duality over Q: certified lower bounds on the cost of a plan                        *)
+(*    (vocabulary: Spec/SpecDuality.v; n source buckets 0..n-1, m target buckets 0..m-1, ground     *)
+(*    cost d; the Sinkhorn plan of part C is non-negative with column sums nu, its row sums mu'     *)
+(*    are only approximately the source histogram mu)                                               *)
+(* ================================================================== *)
+From Coq Require Import Qabs.
+From RP Require Import Spec.SpecDuality Proofs.C12_Duality.
+Close Scope R_scope.
+Open Scope Q_scope.
+
+(* weak duality: a dual-feasible pair of potentials is worth at most the cost of any non-negative plan,
+   measured against that plan's own marginals *)
+Theorem C12_weak_duality : forall n m d P f g mu' nu,
+  nonneg_plan n m P -> has_row_sums n m P mu' -> has_col_sums n m P nu ->
+  dual_feasible n m d f g ->
+  dual_value n m f g mu' nu <= plan_cost n m d P.
+Proof. exact weak_duality. Qed.
+Print Assumptions C12_weak_duality.
+
+(* hence every coupling of (mu, nu) costs at least the dual value: a dual-feasible pair is a certified
+   lower bound on the exact optimal-transport cost *)
+Theorem C12_optimum_at_least_dual : forall n m d Q f g mu nu,
+  coupling_of n m Q mu nu -> dual_feasible n m d f g ->
+  dual_value n m f g mu nu <= plan_cost n m d Q.
+Proof. exact optimum_at_least_dual. Qed.
+Print Assumptions C12_optimum_at_least_dual.
+
+(* a non-negative plan with column sums nu but row sums mu' (not necessarily mu) costs at least any
+   certified lower bound on the optimum for (mu, nu), minus F times the mass it misplaces on the source
+   side, where F bounds the source potential.  For a ground cost normalised to [0,1] one can take
+   F <= 1 without lowering the certificate (C12_potentials_bounded below), so the Sinkhorn cost is at
+   least (exact optimum) - sum_i |mu i - mu' i| whenever the certificate is optimal. *)
+Theorem C12_plan_cost_lower_bound : forall n m d P f g mu mu' nu F,
+  nonneg_plan n m P -> has_row_sums n m P mu' -> has_col_sums n m P nu ->
+  dual_feasible n m d f g -> (forall i, (i < n)%nat -> qabs (f i) <= F) ->
+  dual_value n m f g mu nu - F * misplaced n mu mu' <= plan_cost n m d P.
+Proof. exact plan_cost_lower_bound. Qed.
+Print Assumptions C12_plan_cost_lower_bound.
+
+(* remark: for a ground cost with values in [0,1] (no symmetry, triangle inequality or zero diagonal is
+   needed) and histograms of equal total mass with non-negative source masses, every dual-feasible
+   pair is dominated by one whose source potential lies in [0,1] (c-transform, then shift by a constant) *)
+Theorem C12_potentials_bounded : forall n m d f g mu nu,
+  (0 < n)%nat -> (0 < m)%nat ->
+  (forall i j, (i < n)%nat -> (j < m)%nat -> 0 <= d i j <= 1) ->
+  dual_feasible n m d f g ->
+  (forall i, (i < n)%nat -> 0 <= mu i) -> qsum_range 0 n mu == qsum_range 0 m nu ->
+  exists f' g', dual_feasible n m d f' g' /\ (forall i, (i < n)%nat -> 0 <= f' i <= 1) /\
+                dual_value n m f g mu nu <= dual_value n m f' g' mu nu.
+Proof. exact potentials_bounded. Qed.
+Print Assumptions C12_potentials_bounded.
+
+(* a 3 x 3 instance on the grid 0, 1/2, 1: the hypotheses are satisfiable and both bounds are attained *)
+Definition exD_d   := mat [[0; 1#2; 1]; [1#2; 0; 1#2]; [1; 1#2; 0]].
+Definition exD_mu  := vec [1#2; 1#2; 0].
+Definition exD_nu  := vec [0; 1#2; 1#2].
+Definition exD_Q   := mat [[0; 1#2; 0]; [0; 0; 1#2]; [0; 0; 0]].          (* an optimal coupling of (mu, nu) *)
+Definition exD_f   := vec [1#2; 0; -(1#2)].
+Definition exD_g   := vec [-(1#2); 0; 1#2].
+Definition exD_mu' := vec [1#4; 1#2; 1#4].
+Definition exD_P   := mat [[0; 1#4; 0]; [0; 1#4; 1#4]; [0; 0; 1#4]].      (* column sums nu, row sums mu' *)
+Example C12_duality_hyps_sat :
+  (* (b) is tight: the coupling Q and the dual pair (f, g) have the same value, so both are optimal *)
+  coupling_of 3 3 exD_Q exD_mu exD_nu /\ dual_feasible 3 3 exD_d exD_f exD_g /\
+  dual_value 3 3 exD_f exD_g exD_mu exD_nu == 1#2 /\ plan_cost 3 3 exD_d exD_Q == 1#2 /\
+  (* (c) is tight: optimum 1/2, F = 1/2, misplaced mass 1/2, cost of P = 1/2 - 1/2 * 1/2 *)
+  nonneg_plan 3 3 exD_P /\ has_row_sums 3 3 exD_P exD_mu' /\ has_col_sums 3 3 exD_P exD_nu /\
+  (forall i, (i < 3)%nat -> qabs (exD_f i) <= 1#2) /\
+  misplaced 3 exD_mu exD_mu' == 1#2 /\ plan_cost 3 3 exD_d exD_P == 1#4 /\
+  (* (potentials_bounded) ground cost in [0,1], non-negative source masses, equal total masses *)
+  (forall i j, (i < 3)%nat -> (j < 3)%nat -> 0 <= exD_d i j <= 1) /\
+  (forall i, (i < 3)%nat -> 0 <= exD_mu i) /\ qsum_range 0 3 exD_mu == qsum_range 0 3 exD_nu.
+Proof.
+  unfold coupling_of, nonneg_plan, has_row_sums, has_col_sums, dual_feasible.
+  repeat match goal with
+  | |- _ /\ _ => split
+  | |- forall i j, (i < 3)%nat -> (j < 3)%nat -> _ => apply (below3_2 (fun i j => _))
+  | |- forall i, (i < 3)%nat -> _ => apply (below3 (fun i => _))
+  end; vm_compute; first [reflexivity | intros Hc; discriminate Hc].
+Qed.
+Print Assumptions C12_duality_hyps_sat.
